@@ -25,7 +25,7 @@ PROPS = {
         ],
     },
     "C04": {
-        "units": ["U1", "U4", "U3"],
+        "units": ["U1", "U4", "U3", "U12"],
         "kani": ["U2b"],
         "level": "proof",
         "witness": [
@@ -43,7 +43,7 @@ PROPS = {
         ],
     },
     "C01": {
-        "units": ["U3", "U4", "U2", "U5"],
+        "units": ["U3", "U4", "U2", "U5", "U12"],
         "kani": ["U2b"],
         "level": "proof",
         "witness": [(r"verify_token|create_ciphers|apply_encryption", "enc_response"), (r"listen", "session")],
